@@ -38,6 +38,18 @@ CHECKS = {
             "min(n+1, remaining), last = all) is an invariant over all call sequences of the model; Some/None and len() of the real "
             "calculators are compared with the model after every transition, including usize-underflow detection.",
             "DESIGN.md 3/C15", "TLA+ model checking (TLC) + spec-to-impl transition replay + std-adaptor traces"),
+    "C12": ("spec/ScoreGen.tla + MC_ScoreGen.tla + TraceScoreGen.tla; harness scoregen-replay", "model_checking",
+            "TLC enumerates every small attribute shape x provided subset x value x priority x origin x passed_objects case; on the "
+            "transcription of the integer branches it checks every requirement (misses, keep, sum, combo, no underflow) and that "
+            "generating twice is idempotent (2-step machine with write-back); the real generate_state must equal the transcription "
+            "exactly on those branches, and for accuracy branches TLC evaluates the same requirement predicates on the REAL result "
+            "(trace validation); calculate() is compared with calculate() on the explicitly supplied generated state for every case.",
+            "DESIGN.md 3/C12", "TLA+ model checking (TLC) of the transcribed algorithm + exact replay + trace validation of real results"),
+    "C13": ("spec/ScoreGen.tla (AccNum/AccDen/Dists/Optimal) + TraceScoreGen.tla; harness scoregen-replay", "model_checking",
+            "For every enumerated shape, miss count, accuracy target k/T, priority and origin, TLC enumerates ALL distributions of the "
+            "hit results over the same objects in exact integer arithmetic and checks that the state the real code generated is at "
+            "least as close to the target as any of them (ties accepted) and has the given number of misses.",
+            "DESIGN.md 3/C13", "TLC evaluates exact-rational optimality over all distributions on results recorded from the real code"),
 }
 
 NOT_YET = {
